@@ -200,6 +200,14 @@ func loadOnce(b []byte, check J) (obs J, id string) {
 	if check != nil {
 		signer, err := d.CheckDebsig(keyring(L(check["keyring"])), check["role"].(string))
 		obs["sig"] = J{"ok": err == nil, "signer": keyName(signer)}
+		// the same loaded package asked again with other keyrings, and then once more as at first:
+		// an answer must depend on the keyring of THAT call only
+		again := []interface{}{}
+		for _, ring := range [][]interface{}{{"k1"}, {"k2"}, {}, {"k1", "k2"}, L(check["keyring"])} {
+			s2, e2 := d.CheckDebsig(keyring(ring), check["role"].(string))
+			again = append(again, J{"ring": ring, "ok": e2 == nil, "signer": keyName(s2)})
+		}
+		obs["sig_again"] = again
 	} else {
 		obs["sig"] = J{"ok": false, "signer": "unchecked"}
 	}
@@ -309,13 +317,21 @@ func execDeb(vec J, out *Writer) {
 			c := cols[vec["col"].(string)]
 			text := fmt.Sprintf("%-*s", c[1]-c[0], S(vec["text"]))
 			copy(b[hdr+c[0]:hdr+c[1]], text[:c[1]-c[0]])
+		case "extra_member":
+			// one more member appended to the archive (e.g. "control.sig", "data.sig")
+			ms := append(append([]arMember{}, base.Members...), arMember{vec["name"].(string), []byte("not a tarball\n")})
+			b = buildAr(ms)
 		case "none":
 		default:
 			die("debraw: unknown op %v", vec["op"])
 		}
 		ids := []interface{}{}
 		hang := false
-		for i := 0; i < 3 && !hang; i++ {
+		loads := 3
+		if vec["op"] == "extra_member" {
+			loads = 40 // the outcome may depend on Go map iteration order
+		}
+		for i := 0; i < loads && !hang; i++ {
 			done := make(chan string, 1)
 			go func() { _, id := loadOnce(b, nil); done <- id }()
 			select {
@@ -393,6 +409,9 @@ func genDebRaw(r *rand.Rand, tier string, out *Writer) {
 		}
 		n := len(base.Bytes)
 		out.Put(J{"k": "debraw", "ctl": comps[0], "data": comps[1], "op": "none"})
+		for _, nm := range []string{"control.sig", "data.sig", "control.tar", "data.tar.gz", "_gpgorigin", "control.", "data.x.tar"} {
+			out.Put(J{"k": "debraw", "ctl": comps[0], "data": comps[1], "op": "extra_member", "name": nm})
+		}
 		for off := r.Intn(stride); off < n; off += stride {
 			out.Put(J{"k": "debraw", "ctl": comps[0], "data": comps[1], "op": "flip", "off": off, "mask": 1 << uint(r.Intn(8))})
 		}
